@@ -72,7 +72,9 @@ Step == IF tid > Len(Traces) THEN PrintT(<<"DONE", Len(Traces)>>) /\ tid' = tid 
         ELSE IF Len(Traces[tid]) = 0 THEN NextTrace
         ELSE LET s == Apply(st, Ev.act)
                  c == IF ~Enabled(st, Ev.act) THEN <<"harness.not-enabled", "-">>
-                      ELSE IF Ev.raised THEN <<"ok", "-">>           \* a refused operation ends the history; refusing is not an inconsistency
+                      \* the history generator only takes actions the certificate admits (Cert.Enabled): one that raises breaks the history off
+                      \* (C15: a verdict - the key can no longer be managed; the other foci judge states only)
+                      ELSE IF Ev.raised THEN (IF Focus = "C15" THEN <<"C15.operation-raised", "-">> ELSE <<"ok", "-">>)
                       ELSE IF "obs" \in DOMAIN Ev THEN FirstBad(s, Ev.obs) ELSE <<"ok", "-">> IN
            IF c[1] # "ok" THEN PrintT(<<"REJECT", tid, c[1], i, c[2]>>) /\ NextTrace
            ELSE IF i = Len(Traces[tid]) THEN NextTrace
